@@ -52,8 +52,7 @@ Proof.
   unfold single_err_writer. intros H sk prev. apply Nat.leb_le in H.
   apply noisy_pairwise. unfold noisy, load_inits. simpl.
   destruct (skipped sk prev (fst it)); [|assumption].
-  destruct (map linit (snd it)) as [|x l]; [assumption|].
-  simpl in *. destruct (lquiet x); simpl in *; lia.
+  clear H. induction (map linit (snd it)) as [|x l IH]; simpl; [lia|exact IH].
 Qed.
 
 Lemma lguard_items p : lguard p = true -> Forall (item_ok lstate lquiet) (map litem p).
